@@ -15,6 +15,10 @@ REPO_ACCESSORS = ("Data2D<int>::getIStrip", "Data2D<double>::getStrip", "Data2D<
 def is_accessor(fnname):
     return (fnname.startswith("std::") and fnname.endswith(STD_ACCESSORS)) or fnname.endswith(REPO_ACCESSORS)
 
+# std algorithms that write through an iterator / pointer passed by value: callee -> argument positions written
+STD_OUTPUT_ARGS = {"std::copy_n": (2,), "std::copy": (2,), "std::fill": (0,), "std::fill_n": (0,), "std::transform": (2, 3), "std::iota": (0,),
+                   "std::sort": (0,), "std::reverse": (0,), "std::move_backward": (2,), "std::copy_backward": (2,), "std::partial_sum": (2,), "std::generate": (0,)}
+
 ASSIGN_OPS = ("=", "+=", "-=", "*=", "/=", "%=", "<<=", ">>=", "&=", "|=", "^=")
 
 
@@ -47,6 +51,15 @@ def base_var(n):
             if o is None:
                 return None
             n = strip(o)
+            continue
+        if k == "BinaryOperator" and n.get("op") in ("+", "-"):
+            n = strip(n["c"][0])
+            continue
+        if k == "CXXOperatorCallExpr" and n.get("op") in ("+", "-") and len(n.get("c", [])) == 3:
+            n = strip(n["c"][1])
+            continue
+        if k in ("CXXConstructExpr", "CXXTemporaryObjectExpr") and len(n.get("c", [])) == 1:
+            n = strip(n["c"][0])
             continue
         return None
     return None
@@ -89,6 +102,12 @@ def element_writes(n):
                 v = base_var(a) if a is not None else None
                 if v is not None:
                     out.append((v, "update", None))
+        if k == "CallExpr" and callee(n) in STD_OUTPUT_ARGS:
+            for i in STD_OUTPUT_ARGS[callee(n)]:
+                if i < len(args):
+                    v = base_var(args[i])
+                    if v is not None:
+                        out.append((v, "update", None))
         if k == "CXXMemberCallExpr":
             h = strip(n["c"][0], casts=False)
             if h is not None and not h.get("cm") and not h.get("static") and not is_accessor(h.get("fn", "")):
